@@ -5,7 +5,7 @@
     ---------------------------------------   ------------------------------
     filter.GetDefaultSearchTokens  (regexp)   [tokens]
     filter.DefaultFilterFunc                  [default_match]
-    applyTextFilter (+ the three runners)     [apply_text_filter]
+    applyTextFilter (+ the three runners)     [apply_text_filter] (= filter [node_filter], ProofsFilter.v)
     applySort + sorts[...] (sort.SliceStable) [apply_sort] (stable insertion sort)
     nodesToEdges                              [nodes_to_edges]
     pagesFromEdges                            [pages_from_edges]
@@ -161,7 +161,21 @@ Record pargs := mk_args {
 }.
 
 (** the registered filter / sort fields of the paginated field *)
-Record config := mk_cfg { cfg_ff : list string; cfg_sf : list string }.
+(** how a filter field is implemented: FilterField, FilterField(..., Expensive), BatchFilterField,
+    BatchFilterFieldWithFallback *)
+Inductive impl := IPlain | IExpensive | IBatch | IFallback.
+
+Record ffield := mk_ff {
+  ff_name : string;      (* the name it is registered under (what filterTextFields mentions) *)
+  ff_attr : string;      (* which entry of [n_texts] its resolver returns *)
+  ff_impl : impl
+}.
+
+Record config := mk_cfg {
+  cfg_ff : list ffield;
+  cfg_sf : list string;
+  cfg_use_batch : bool   (* what ShouldUseBatchFunc(ctx) answers for the fallback fields *)
+}.
 
 Inductive perr := ErrNegative | ErrBoth | ErrUnknownSort.
 
@@ -179,14 +193,40 @@ Record conn := mk_conn {
 
 (** * applyTextFilter *)
 
-Definition selected_fields (cfg : config) (a : pargs) : list string :=
+Definition selected_fields (cfg : config) (a : pargs) : list ffield :=
   match a_ffields a with
-  | Some fs => filter (fun f => mem_str f fs) (cfg_ff cfg)
+  | Some fs => filter (fun f => mem_str (ff_name f) fs) (cfg_ff cfg)
   | None => cfg_ff cfg
   end.
 
-Definition keep_node (toks : list string) (fields : list string) (n : node) : bool :=
-  existsb (fun f => default_match (lookup_def EmptyString f (n_texts n)) toks) fields.
+Definition field_matches (toks : list string) (n : node) (f : ffield) : bool :=
+  default_match (lookup_def EmptyString (ff_attr f) (n_texts n)) toks.
+
+(** checkFilters: some field of the group matches *)
+Definition keep_node (toks : list string) (fields : list ffield) (n : node) : bool :=
+  existsb (field_matches toks n) fields.
+
+(** which of the three runners of applyTextFilter resolves a field:
+    Batch && UseBatchFunc(ctx) -> applyBatchTextFilter; else Expensive -> ...NotBatchedExpensive;
+    else applyTextFilterNotBatched.  A fallback field is built non-expensive. *)
+Inductive runner := RPlain | RExpensive | RBatch.
+
+Definition runner_of (use_batch : bool) (f : ffield) : runner :=
+  match ff_impl f with
+  | IPlain => RPlain
+  | IExpensive => RExpensive
+  | IBatch => RBatch
+  | IFallback => if use_batch then RBatch else RPlain
+  end.
+
+Definition runner_eqb (a b : runner) : bool :=
+  match a, b with
+  | RPlain, RPlain | RExpensive, RExpensive | RBatch, RBatch => true
+  | _, _ => false
+  end.
+
+Definition group (cfg : config) (r : runner) (fields : list ffield) : list ffield :=
+  filter (fun f => runner_eqb (runner_of (cfg_use_batch cfg) f) r) fields.
 
 Definition node_filter (cfg : config) (a : pargs) : node -> bool :=
   match a_ftext a with
@@ -195,8 +235,21 @@ Definition node_filter (cfg : config) (a : pargs) : node -> bool :=
   | Some t => keep_node (tokens t) (selected_fields cfg a)
   end.
 
+(** applyTextFilter as written: three keep-arrays, one per runner, or-ed together *)
 Definition apply_text_filter (cfg : config) (l : list node) (a : pargs) : list node :=
-  filter (node_filter cfg a) l.
+  match a_ftext a with
+  | None => l
+  | Some EmptyString => l
+  | Some t =>
+      let toks := tokens t in
+      let sel := selected_fields cfg a in
+      let keep_plain := map (keep_node toks (group cfg RPlain sel)) l in
+      let keep_expensive := map (keep_node toks (group cfg RExpensive sel)) l in
+      let keep_batch := map (keep_node toks (group cfg RBatch sel)) l in
+      let keep := map (fun x => (fst (fst x) || snd x || snd (fst x))%bool)
+                      (combine (combine keep_plain keep_expensive) keep_batch) in
+      map fst (filter snd (combine l keep))
+  end.
 
 (** * applySort *)
 
